@@ -147,6 +147,9 @@ def summary_groupby_col_type(source_type):
   """
   if source_type == 'ChoiceList':
     return 'Choice'
+  elif source_type == 'Attachments':
+    # Attachments is a list of references to _grist_Attachments.
+    return 'Ref:_grist_Attachments'
   else:
     return source_type.replace('RefList:', 'Ref:')
 
